@@ -97,6 +97,17 @@ REGRESS = [
     ("n3-i64-match-binding", "pub fn main(x: i64) -> i64 { match x { y => y } }"),
     ("n3-u64-enum-field-binding", "enum E { A, B(u64) }\npub fn main(e: E) -> u64 { match e { E::A => 0, E::B(x) => x } }"),
     ("d30-recursive-unused", "struct S { a: u8, s: S }\npub fn main(x: u8) -> u8 { x }"),
+    # session 4 (audit sub-agent): 4d458c4, cae2f2a, d5d372c
+    ("r4-const-of-undeclared-type", "const C: Foo = PARTY_0::C;\npub fn main(x: u8) -> u8 { let y = C; x }"),
+    ("r4-const-of-struct-type", "struct S { a: u8 }\nconst C: S = PARTY_0::C;\npub fn main(x: u8) -> u8 { match C { _ => x } }"),
+    ("r4-duplicate-variant-unit-tuple", "enum E { A, A(u8) }\npub fn main(x: E) -> u8 { match x { E::A(y) => y } }"),
+    ("r4-duplicate-variant-two-payloads", "enum E { A(u8), A(u16) }\npub fn main(x: E) -> u16 { match x { E::A(y) => y } }"),
+    ("r4-wide-tuple-let", "pub fn main(x: (" + ", ".join(["u8"] * 40) + ")) -> u8 { let y = x; 1u8 }"),
+    ("r4-wide-bool-tuple-match", "pub fn main(x: (" + ", ".join(["bool"] * 40) + ")) -> u8 { match x { _ => 1u8 } }"),
+    ("r4-wide-struct-one-field-pattern", "struct S { " + ", ".join("f%d: u8" % i for i in range(40)) + " }\n"
+     "pub fn main(x: S) -> u8 { match x { S { f0: 0, .. } => 1u8, _ => 2u8 } }"),
+    ("r4-doubling-structs-let", "struct S0 { a: [u8; 1] }\n" + "".join("struct S%d { a: S%d, b: S%d }\n" % (i, i - 1, i - 1) for i in range(1, 13))
+     + "pub fn main(x: S12, y: u8) -> u8 { let z = x; y }"),
 ]
 
 LIT_POOL = ["0", "1", "255", "256", "-1", "-129", "true", "false", "1u8", "1i8", "300u8", "(1, 2)", "(1)", "()",
